@@ -64,7 +64,9 @@ func (us *UniqueSet) Remove(item interface{}) {
 
 // Each runs the function against all items in set.
 func (us *UniqueSet) Each(fn func(int, interface{})) {
-	items := us.items[:]
+	// iterate over a copy, fn is allowed to remove items
+	items := make([]interface{}, len(us.items))
+	copy(items, us.items)
 
 	for i, item := range items {
 		fn(i, item)
